@@ -35,6 +35,9 @@ type Cfg struct {
 	// NoRedirectSpy leaves out the observer middleware on the built-in redirect handler, so that a router can be built
 	// without any global middleware at all (requests answered by that handler then leave no Hit).
 	NoRedirectSpy bool
+	// ExtrasFirst puts the caller's options (middleware) before the handler and trailing-slash options instead of
+	// after them: what a middleware wraps must not depend on where its option stands in the list
+	ExtrasFirst bool
 	// BuiltinHandlers leaves fox's own no-route, no-method and options handlers in place (switched on through
 	// WithNoMethod / WithAutoOptions) instead of the recording ones: such answers are visible as status and headers only.
 	BuiltinHandlers bool
@@ -174,7 +177,11 @@ func Build(cfg Cfg, extra ...fox.GlobalOption) (*World, error) {
 	if cfg.MaxKeyBytes > 0 {
 		opts = append(opts, fox.WithMaxRouteParamKeyBytes(uint16(cfg.MaxKeyBytes)))
 	}
-	opts = append(opts, extra...)
+	if cfg.ExtrasFirst {
+		opts = append(append([]fox.GlobalOption(nil), extra...), opts...)
+	} else {
+		opts = append(opts, extra...)
+	}
 	if !cfg.NoRedirectSpy {
 		opts = append(opts, fox.WithMiddlewareFor(fox.RedirectHandler, redirectSpy))
 	}
